@@ -313,17 +313,17 @@ def c07_select(cases, n, rng):
     return chosen
 
 
-def c07_bisect(ctx, case, all_cases, menu, component_label):
+def c07_bisect(ctx, case, all_cases, menu):
     """Names the attribute class: re-runs the declarations that keep ONE of the rich attributes of the failing one."""
     d = case["decl"]
-    hits = []
+    cands = []
     for a in sorted(d["rich"]):
         cand = [c for c in all_cases if c["decl"]["rich"] == [a] and c["decl"][a] == d[a] and c["decl"]["ctx"] == d["ctx"]]
-        if not cand:
-            continue
-        r = c07_run_repo(ctx, 900000 + len(hits), cand[0], menu, 10, tag="b%s" % a)
-        if r["diffs"]:
-            hits.append(a)
+        if cand:
+            cands.append((a, cand[0]))
+    with ThreadPoolExecutor(max_workers=POOL) as ex:
+        futs = [(a, ex.submit(c07_run_repo, ctx, 900000 + n, c, menu, 10, "b")) for n, (a, c) in enumerate(cands)]
+        hits = [a for a, f in futs if f.result()["diffs"]]
     if hits:
         return "attr=" + "+".join(hits)
     return "attr=combination(%s)" % "+".join(sorted(d["rich"])) if d["rich"] else "attr=none"
@@ -389,6 +389,7 @@ def run_c07(ctx):
     with ThreadPoolExecutor(max_workers=POOL) as ex:
         futs = [ex.submit(c07_run_repo, ctx, i, c, menu, nruns) for i, c in enumerate(cases)]
         results = [f.result() for f in futs]
+    bisected = 0
     for c, res in zip(cases, results):
         d = c["decl"]
         ctx.count(json.dumps(d, sort_keys=True), nontrivial=len(d["rich"]) > 0,
@@ -402,7 +403,11 @@ def run_c07(ctx):
             ctx.violation("C07 nondeterministic-output env-value-references-another-env-key", detail)
             continue
         comps = sorted({x for dd in res["diffs"].values() for x in dd["components"]})
-        cls = c07_bisect(ctx, c, all_cases, menu, comps)
+        if bisected < 2:        # name the attribute class of the first ones by re-running single-attribute declarations
+            bisected += 1
+            cls = c07_bisect(ctx, c, all_cases, menu)
+        else:
+            cls = "rich=" + "+".join(sorted(d["rich"]))
         ctx.violation("C07 nondeterministic obs=%s %s" % ("+".join(comps), cls), detail)
     if not ctx.quick and ctx.replay_only is None:
         # binding self-test: the comparison does see a changed value
@@ -549,7 +554,9 @@ def c37_judge(rc_, obs):
     """obs: dict(built, rejected_msg, res). Returns None if the observation satisfies the spec's Expect, else a reason."""
     exp = rc_.case["expect"]
     if exp["err"]:
-        return None if not obs["built"] else "accepted: expanded to %s" % [w["word"] for w in (obs["res"] or {}).get("words", [])]
+        if obs["built"]:
+            return "accepted: expanded to %s" % [w["word"] for w in (obs["res"] or {}).get("words", [])]
+        return None if obs.get("rc", 1) != 0 else "not built, but plz exits 0"
     if not obs["built"]:
         return "build failed where the sequence must expand"
     res = obs["res"]
@@ -618,7 +625,7 @@ def c37_run_repo(ctx, idx, cases):
         invocations += 1
         if rc == -9:
             raise vlib.Infra("plz build --keep_going timed out on generated C37 cases:\n%s" % output[-2000:])
-        obs = {r.i: c37_observe(root, r, output) for r in group}
+        obs = {r.i: dict(c37_observe(root, r, output), rc=rc) for r in group}
         # the dependencies themselves must have built (else the harness, not plz, is at fault)
         for r in group:
             if r.c["role"] != "none":
@@ -644,7 +651,7 @@ def c37_run_repo(ctx, idx, cases):
                     os.remove(r.res_path(root))
                 rc1, so, se = plz(root, home, ["build", r.label], timeout=300)
                 invocations += 1
-                o1 = c37_observe(root, r, so + "\n" + se)
+                o1 = dict(c37_observe(root, r, so + "\n" + se), rc=rc1)
                 single = dict(rc=rc1, output=(so + "\n" + se)[-1500:], built=o1["built"])
                 reason1 = c37_judge(r, o1)
                 if reason1 is None or (rc1 == 0) != o1["built"]:
@@ -727,8 +734,27 @@ def run_c37(ctx):
     for k, v in sorted(drift.items()):
         ctx.drift("%d case(s) the algorithm-level model expected to deviate (%s) satisfy the property" % (v, k))
     if nomsg:
-        ctx.drift("%d Error case(s) failed to build without plz's `Rule ... can't ...` message (the model says plz rejects them itself); first: %s"
+        ctx.drift("%d Error case(s) failed to build without plz's `Rule ... can't ...` message (the model says plz rejects them itself; plz may abbreviate the failures of a --keep_going batch); first: %s"
                   % (len(nomsg), json.dumps(nomsg[0])))
+    if not ctx.quick and ctx.replay_only is None:
+        # binding self-test: a deliberately wrong expectation is reported by the comparison
+        st = None
+        for outs, _ in done:
+            for o in outs:
+                case = cases[o["i"]]
+                if o["reason"] is None and not case["expect"]["err"] and len(case["expect"]["words"]) == 1:
+                    wrong = json.loads(json.dumps(case))
+                    wrong["expect"]["words"] = wrong["expect"]["words"] * 2
+                    wrong2 = json.loads(json.dumps(case))
+                    wrong2["expect"] = dict(err=True, why="selftest", words=[])
+                    st = (c37_judge(C37Case(o["i"], o["g"], wrong), o["obs"]) is not None
+                          and c37_judge(C37Case(o["i"], o["g"], wrong2), o["obs"]) is not None)
+                    break
+            if st is not None:
+                break
+        ctx.extra["binding_selftest"] = "rejected" if st else "MISSED"
+        if not st:
+            raise vlib.Infra("binding self-test failed")
     ctx.traces_validated = len(cases)
     ctx.extra["plz_invocations"] = inv
     ctx.extra["cases_by_model_class"] = {k: sum(1 for c in cases if c["cls"] == k) for k in sorted({c["cls"] for c in cases})}
